@@ -160,7 +160,13 @@ func (w *serverWorld) runHTTP(x *X, hdl http.Handler, idx int, h HTTPReqSc) {
 		method = h.Method
 	}
 	req := httptest.NewRequest(method, "/kmip", nil)
-	req.Body = &chunkReader{s: s, b: body, max: h.ChunkLen}
+	// (a body is delivered in at most about 2000 reads: a megabyte one byte at a time would spend the run's whole
+	// scheduling budget on reading and be reported as not coming to rest)
+	chunk := h.ChunkLen
+	if chunk > 0 && len(body)/chunk > 2000 {
+		chunk = len(body)/2000 + 1
+	}
+	req.Body = &chunkReader{s: s, b: body, max: chunk}
 	ct := httpCTypes[h.Enc]
 	if h.CType == "none" {
 		ct = ""
